@@ -17,6 +17,8 @@
 //        until the director grants it.
 //        answer: res=ok|stuck|fail:<why> fault=none|uaf:<fn>|dfree:<fn> timing=ok|<why> at=<step index reached>
 //                obs=<history, oldest first, times in microseconds since start>
+//        (fail:<why> = the run did not realise the schedule: an expected arrival did not come; VD_DELAY_TRACE=1
+//        in the environment prints the monitor and queue events to stderr)
 //   delay_rt <tolerance_us> <spec>
 //        spec: comma separated  S:<uuid>:<sid>:<tgt>:<delay text hex>:<expected ms> | C:<sid> | W:<ms>  executed in
 //        order by the interpreter thread without any forced schedule (W = the director waits).  answer as above.
@@ -137,6 +139,10 @@ struct DQueue : public BasicDelayedEventQueue {
 	std::map<std::string, std::string> uuidOf;   // event name -> uuid
 	std::map<std::string, size_t> delayOf;       // event name -> delayMs
 	bool recordOnly = false;                       // delay_parse: no timer is created
+	// forced runs stretch timer callbacks to tens of milliseconds; libevent times a timer that is added while a
+	// callback runs from its cached clock (the moment the loop woke up for that callback), so such a timer would
+	// be due early by the time the harness held the callback.  In forced runs the cache is refreshed before a send.
+	bool refreshCache = false;
 	DQueue(DelayedEventQueueCallbacks* cb) : BasicDelayedEventQueue(cb) {}
 	virtual void enqueueDelayed(const Event& event, size_t delayMs, const std::string& eventUUID) {
 		{
@@ -145,6 +151,7 @@ struct DQueue : public BasicDelayedEventQueue {
 			delayOf[event.name] = delayMs;
 		}
 		if (recordOnly) return;
+		if (refreshCache) event_base_update_cache_time(_eventLoop);
 		BasicDelayedEventQueue::enqueueDelayed(event, delayMs, eventUUID);
 	}
 	// non-blocking look at _callbackData (the director must not wait for a mutex a dead-locked thread holds)
@@ -164,6 +171,7 @@ struct TQueue : public BasicEventQueue {
 	int tgt;
 	TQueue(int t) : tgt(t) {}
 	virtual void enqueue(const Event& event) {
+		if (getenv("VD_DELAY_TRACE")) fprintf(stderr, "[%lld] enqueue %s on queue %d by %s\n", now_us(), event.name.c_str(), tgt, tl_role ? tl_role : "T");
 		if (event.name.size() > 2 && event.name.substr(0, 2) == "ev") {
 			Ctl& c = ctl();
 			std::lock_guard<std::mutex> l(c.m);
@@ -189,6 +197,10 @@ struct Mon : public InterpreterMonitor {
 	virtual void beforeProcessingEvent(const std::string&, const Event& event) {
 		if (event.name.size() > 2 && event.name.substr(0, 2) == "op") cur = atoi(event.name.c_str() + 2);
 		else cur = -1;
+		if (getenv("VD_DELAY_TRACE")) fprintf(stderr, "[%lld] processing %s type=%d\n", now_us(), event.name.c_str(), (int)event.eventType);
+	}
+	virtual void beforeTakingTransition(const std::string&, const XERCESC_NS::DOMElement* t) {
+		if (getenv("VD_DELAY_TRACE")) fprintf(stderr, "[%lld] transition on %s\n", now_us(), HAS_ATTR(t, X("event")) ? ATTR(t, X("event")).c_str() : "-");
 	}
 	virtual void beforeExecutingContent(const std::string&, const XERCESC_NS::DOMElement* e) {
 		std::string tag = LOCALNAME(e);
@@ -318,6 +330,7 @@ static std::string run_replay(long long tickms, const std::string& progs, const 
 	}
 	c.t0 = clk::now();
 	S->start(rt ? 0 : tickms * 1000);
+	S->dq->refreshCache = !rt;
 	std::vector<std::string> steps;
 	if (stepss != "-") steps = splitc(stepss, ',');
 
@@ -391,7 +404,7 @@ static std::string run_replay(long long tickms, const std::string& progs, const 
 		std::string why;
 		if (head[0] == 'I') {
 			check_early();
-			if (head[1] == 's' || head[1] == 'c' || head[1] == 'a') {
+			if ((head[1] == 's' || head[1] == 'c' || head[1] == 'a') && head.substr(0, 3) != "Ial") {
 				int k = atoi(head.c_str() + 2);
 				nextop = k + 1;
 				if (!started[k]) {
@@ -408,7 +421,20 @@ static std::string run_replay(long long tickms, const std::string& progs, const 
 				}
 				if (post == "d") { ok = wait_done(lk, k, ARR); why = "op-not-done"; }
 				else if (post == "q") { ok = wait_arrival(lk, "I:delay.cancel.before", ARR); why = "no-arrival-delay.cancel.before"; }
-				else if (post == "l") { }
+				else if (post == "l") {
+					// cancelAllDelayed has no point after taking _mutex: wait until the helper holds it (or is done)
+					lk.unlock();
+					auto dl = clk::now() + std::chrono::milliseconds(ARR);
+					while (clk::now() < dl) {
+						if (S->dq->entries() < 0) break;
+						{
+							std::lock_guard<std::mutex> l2(c.m);
+							if (c.opdone[k]) break;
+						}
+						std::this_thread::sleep_for(std::chrono::microseconds(50));
+					}
+					lk.lock();
+				}
 				else if (post == "f") { c.cv.wait_for(lk, std::chrono::milliseconds(ARR), []() { return false; }); ok = false; why = "fault-expected-none-seen"; }
 				else c.cv.wait_for(lk, std::chrono::milliseconds(SETTLE), []() { return false; });
 			} else {
